@@ -432,6 +432,16 @@ class PathProv:
         if kind == "assign" and isinstance(node, ast.expr):
             return self.label(node, fn, depth)
         if kind == "iter":
+            # entries listed under a directory carry its label; the listing may be collected first (`await path_io.list(d)`), kept in a local, sorted / copied
+            for _ in range(6):
+                if isinstance(node, ast.Await):
+                    node = node.value
+                elif isinstance(node, ast.Call) and isinstance(node.func, ast.Name) and node.func.id in ("sorted", "list", "tuple", "reversed") and node.args:
+                    node = node.args[0]
+                elif isinstance(node, ast.Name) and unique_def(fn, node.id) is not None and isinstance(unique_def(fn, node.id), ast.expr):
+                    node = unique_def(fn, node.id)
+                else:
+                    break
             if isinstance(node, ast.Call) and isinstance(node.func, ast.Attribute) and node.func.attr == "list" and last_attr(node.func.value) == "path_io" and node.args:
                 return self.label(node.args[0], fn, depth)
             return "OTHER:iter"
